@@ -41,6 +41,9 @@ CFG = Cfg(max_depth=3, theories={"bool", "bv"}, bv_widths=[1, 2, 3], nsyms=2, sh
 SOLVER_TAG = [None]        # the scratch directory of the case under test: it is on every solver process' command line
 
 
+DIE = "die!"
+
+
 def solver_processes_alive():
     """Number of reference-solver processes of the current case (found by their --log path in /proc)."""
     tag = SOLVER_TAG[0]
@@ -116,7 +119,7 @@ def check_case(run, members, fbp, extra_bp, exit_on_exception):
             names = []
             for i, (delay, mode) in enumerate(members):
                 name = "ref%d" % i
-                args = REFSOLVER + ["--delay", str(delay), "--mode", mode, "--card", str(CARD),
+                args = REFSOLVER + ["--delay", str(delay), "--mode", mode, "--card", str(CARD), "--die-on", DIE,
                                     "--log", os.path.join(tmp, "log%d.jsonl" % i)]
                 env.factory.add_generic_solver(name, args, list(PYSMT_LOGICS))
                 names.append(name)
@@ -254,6 +257,25 @@ def check_case(run, members, fbp, extra_bp, exit_on_exception):
                         port.pop(2)
                         judge_solve([b], "solve after pop(2)")
                         run.cls("oneshot-and-pop2-cycle")
+                        if all(m_ == "ok" for (_, m_) in members) and r3 is True:
+                            # a one-shot query on which EVERY member dies (the processes exit at check-sat): it must
+                            # raise, and the query must not stay asserted for the next solve
+                            m_ = env.formula_manager
+                            deadly = m_.Symbol(DIE)          # (nothing the simplifier could remove)
+                            out = call_with_deadlock_watch(lambda: port.is_sat(deadly))
+                            run.cls("oneshot-on-which-all-members-die")
+                            if out[0] == "ok":
+                                run.fail({"subcheck": "portfolio:verdict-without-answering-member"}, case,
+                                         "is_sat returned %r although every member process died on the query" % (out[1],))
+                            elif out[0] == "deadlock":
+                                run.fail({"subcheck": "portfolio:blocks-forever", "all_fail": True}, case,
+                                         "is_sat blocks although every member process died on the query")
+                            judge_solve([b], "solve after a one-shot query that killed every member")
+                            # an assertion made right after a one-shot query
+                            out = call_with_deadlock_watch(lambda: port.is_sat(ne2))
+                            port.add_assertion(e2)
+                            judge_solve([b, b2], "solve after is_sat + add_assertion")
+                            run.cls("assertion-right-after-oneshot")
     finally:
         try:
             if port is not None:
